@@ -30,18 +30,26 @@ for k in $ks; do
       echo "PATCH DOES NOT APPLY in worktree"
     fi
   } > $dst/confirmation.txt 2>&1
-  # run the checks against the change
-  if [ -n "$(git -C /repo status --porcelain)" ]; then echo "/repo not clean; skipping check run"; continue; fi
-  if git -C /repo apply $src/patch.diff; then
-    rm -rf /verif/work_seed
-    /verif/bin/govc check --work /verif/work_seed --known /verif/known_findings.json > $dst/check_output.txt 2>&1
-    echo "exit=$?" >> $dst/check_output.txt
-    git -C /repo checkout -q -- .
-    rm -rf /verif/work_seed
+  # run the checks against the change, in a scratch worktree at /repo's HEAD (SEED_IN_REPO=1: in /repo itself)
+  if [ -n "$SEED_IN_REPO" ]; then
+    tgt=/repo
+    if [ -n "$(git -C /repo status --porcelain)" ]; then echo "/repo not clean; skipping check run"; continue; fi
   else
-    echo "PATCH DOES NOT APPLY to /repo" > $dst/check_output.txt
+    tgt=/tmp/wt_seedrun_$id
+    [ -d $tgt ] || git -C /repo worktree add -q --detach $tgt HEAD
+    git -C $tgt checkout -q -- . ; git -C $tgt checkout -q --detach $(git -C /repo rev-parse HEAD)
+  fi
+  if git -C $tgt apply $src/patch.diff; then
+    rm -rf /verif/work_seed_$id
+    /verif/bin/govc check --repo $tgt --work /verif/work_seed_$id --known /verif/known_findings.json > $dst/check_output.txt 2>&1
+    echo "exit=$?" >> $dst/check_output.txt
+    git -C $tgt checkout -q -- .
+    rm -rf /verif/work_seed_$id
+  else
+    echo "PATCH DOES NOT APPLY to $tgt" > $dst/check_output.txt
   fi
   echo "---- $id-$k: $(python3 -c "import json;print(json.load(open('$dst/meta.json')).get('summary',''))" 2>/dev/null)"
   grep -E "demo on|suite with|suite FAIL|NOT APPLY" $dst/confirmation.txt | grep -E "FAIL|ok |ok$|packages|NOT" | head -6
   grep -E "FAILED|ENGINE|STALE|^govc:|exit=" $dst/check_output.txt | cut -c1-260 | head -12
 done
+[ -z "$SEED_IN_REPO" ] && [ -d /tmp/wt_seedrun_$id ] && git -C /repo worktree remove --force /tmp/wt_seedrun_$id
